@@ -11,6 +11,10 @@
 //!                        order, comments to on_comment once, nothing else is touched
 //!   add_error            duplicate location => RecoveryFailed; list never exceeds 101 entries
 use super::*;
+
+#[path = "/verif/kani/parol_runtime/playback_gen_ll.rs"]
+mod playback_gen;
+
 use crate::lexer::token::INVALID_TOKEN;
 use crate::verif_kani::ll_core::{RecActions, RecTree};
 use crate::verif_kani::support::{empty_stream, stub_format};
@@ -181,11 +185,11 @@ macro_rules! ll_steps {
         #[kani::proof]
         #[kani::unwind(14)]
         #[kani::stub(std::fmt::format, stub_format)]
-        fn $push() { push_body(tables::$m::START, tables::$m::LOOKAHEAD_AUTOMATA, tables::$m::PRODUCTIONS, tables::$m::TERMINAL_NAMES, tables::$m::NON_TERMINALS); }
+        pub(crate) fn $push() { push_body(tables::$m::START, tables::$m::LOOKAHEAD_AUTOMATA, tables::$m::PRODUCTIONS, tables::$m::TERMINAL_NAMES, tables::$m::NON_TERMINALS); }
         #[kani::proof]
         #[kani::unwind(14)]
         #[kani::stub(std::fmt::format, stub_format)]
-        fn $proc() { process_body(tables::$m::START, tables::$m::LOOKAHEAD_AUTOMATA, tables::$m::PRODUCTIONS, tables::$m::TERMINAL_NAMES, tables::$m::NON_TERMINALS); }
+        pub(crate) fn $proc() { process_body(tables::$m::START, tables::$m::LOOKAHEAD_AUTOMATA, tables::$m::PRODUCTIONS, tables::$m::TERMINAL_NAMES, tables::$m::NON_TERMINALS); }
     )* };
 }
 
@@ -201,7 +205,7 @@ ll_steps! {
 #[kani::proof]
 #[kani::unwind(6)]
 #[kani::stub(std::fmt::format, stub_format)]
-fn ll_add_error_limits() {
+pub(crate) fn ll_add_error_limits() {
     let fname = Arc::new(PathBuf::new());
     let mut p = LLKParser::new(tables::ll_anbn::START, tables::ll_anbn::LOOKAHEAD_AUTOMATA, tables::ll_anbn::PRODUCTIONS, tables::ll_anbn::TERMINAL_NAMES, tables::ll_anbn::NON_TERMINALS);
     let n0: usize = kani::any();
@@ -234,7 +238,7 @@ fn ll_add_error_limits() {
 #[kani::proof]
 #[kani::unwind(14)]
 #[kani::stub(std::fmt::format, stub_format)]
-fn ll_steps_twin_must_fail() {
+pub(crate) fn ll_steps_twin_must_fail() {
     let mut p = LLKParser::new(tables::ll_anbn::START, tables::ll_anbn::LOOKAHEAD_AUTOMATA, tables::ll_anbn::PRODUCTIONS, tables::ll_anbn::TERMINAL_NAMES, tables::ll_anbn::NON_TERMINALS);
     let mut tree = RecTree::new();
     let r = p.push_production(&mut tree, 0);
